@@ -1,6 +1,7 @@
 package main
 
 import (
+	"fmt"
 	"go/ast"
 	"strings"
 
@@ -14,6 +15,7 @@ import (
 // the result would differ from the other two implementations.
 func runC39Hash(c *eng.Ctx) {
 	p := c.P
+	defer runC39Sizes(c)
 	if p.Tags != "" {
 		return
 	}
@@ -32,4 +34,48 @@ func runC39Hash(c *eng.Ctx) {
 		call, ok := n.(*ast.CallExpr)
 		return ok && nodeText(call) == "h.Write(b)"
 	}))
+}
+
+// C39.R4 (finding F58): the size classes of the stringlabels length encoding agree with what encodeSize writes.  The
+// long form is a marker byte followed by k little-endian bytes (counted from the stores `data[offset+i] = byte(v >> …)`),
+// so it represents lengths below 1<<(8k); sizeWhenEncoded may hand out that form only for x < 1<<(8k), and the short
+// form only below the marker value.
+func runC39Sizes(c *eng.Ctx) {
+	p := c.P
+	if p.Tags != "" {
+		return
+	}
+	es := c.Fn("model/labels:encodeSize")
+	k := 0
+	marker := ""
+	ast.Inspect(es.Body, func(n ast.Node) bool {
+		as, ok := n.(*ast.AssignStmt)
+		if !ok || len(as.Lhs) != 1 {
+			return true
+		}
+		l, r := nodeText(as.Lhs[0]), nodeText(as.Rhs[0])
+		if strings.HasPrefix(l, "data[offset+") && strings.HasPrefix(r, "byte(") {
+			k++
+		}
+		if l == "data[offset]" && !strings.Contains(r, "v") {
+			marker = r
+		}
+		return true
+	})
+	c.Check("R4", es.Where(), "the long form is a marker byte 255 followed by 3 length bytes", k == 3 && marker == "255", p.Pos(es.Body.Pos()), fmt.Sprintf("%d bytes, marker %s", k, marker))
+	sw := c.Fn("model/labels:sizeWhenEncoded")
+	var conds []string
+	ast.Inspect(sw.Body, func(n ast.Node) bool {
+		if is, ok := n.(*ast.IfStmt); ok {
+			if nf, ok := eng.LinearCmp(sw.Info, is.Cond); ok {
+				conds = append(conds, nf)
+			} else {
+				conds = append(conds, "?"+nodeText(is.Cond))
+			}
+		}
+		return true
+	})
+	want := []string{"+1*x -255 < 0", fmt.Sprintf("+1*x -%d < 0", 1<<(8*uint(k)))}
+	c.Check("R4", sw.Where(), fmt.Sprintf("the one-byte form is chosen below the marker value and the long form strictly below 1<<%d", 8*k), len(conds) == 2 && conds[0] == want[0] && conds[1] == want[1], p.Pos(sw.Body.Pos()),
+		"normal forms "+strings.Join(conds, " ; ")+", wanted "+strings.Join(want, " ; ")+": a length of exactly 1<<24 is written as 0 and the label set cannot be read back")
 }
